@@ -1,0 +1,38 @@
+//go:build verif
+
+// Machine-checked contracts for package safehtmlutil (comment-only; read by /verif/govc).
+
+package safehtmlutil
+
+//@ func isHex(c byte) (r bool)
+//@   serves C13 C14 C08
+//@   ensures spec: r == hexdigit(c)
+
+//@ func urlProcessor(norm bool, s string) (r string)
+//@   serves C13 C14 C08
+//@   ensures spec: seqeq(r, encupto(norm, s, len(s)))
+//@   ensures fix: forall(k, 0, len(s), keepat(norm, s, k)) ==> sameview(r, s)
+//@   loop 1
+//@     invariant 0 <= written && written <= i && i <= n && n == len(s)
+//@     invariant len(b) == slen(seq(b))
+//@     invariant written == 0 ==> seq(b) == empty
+//@     invariant seqeq(cat(seq(b), sub(s, written, i)), encupto(norm, s, i))
+//@     invariant forall(k, written, i, keepat(norm, s, k))
+//@     invariant written > 0 ==> !keepat(norm, s, written - 1)
+//@     decreases n - i
+
+//@ func QueryEscapeURL(args ...interface{}) (r string)
+//@   serves C13 C14
+//@   ensures single: len(args) == 1 && tag(at(args, 0)) == 1 ==> seqeq(r, encupto(false, contents(at(args, 0)), len(contents(at(args, 0)))))
+
+//@ func NormalizeURL(args ...interface{}) (r string)
+//@   serves C14
+//@   ensures single: len(args) == 1 && tag(at(args, 0)) == 1 ==> seqeq(r, encupto(true, contents(at(args, 0)), len(contents(at(args, 0)))))
+
+//@ func IsSafeTrustedResourceURLPrefix(prefix string) (r bool)
+//@   serves C13 C14
+//@   ensures spec: r == inlang(re_safeTrustedResourceURLPrefixPattern, prefix)
+
+//@ func URLContainsDoubleDotSegment(url string) (r bool)
+//@   serves C13 C14
+//@   ensures spec: r == inlang(re_urlDoubleDotSegmentPattern, url)
